@@ -18,6 +18,8 @@ import (
 type Sx struct {
 	A string
 	L []*Sx
+	// memoised printed form (nodes are immutable once built)
+	str string
 }
 
 func (s *Sx) isAtom() bool { return s.L == nil }
@@ -59,14 +61,25 @@ func parseSx(src string) *Sx {
 }
 
 func (s *Sx) String() string {
+	if s.isAtom() {
+		return s.A
+	}
+	if s.str != "" {
+		return s.str
+	}
 	var b strings.Builder
 	s.write(&b)
-	return b.String()
+	s.str = b.String()
+	return s.str
 }
 
 func (s *Sx) write(b *strings.Builder) {
 	if s.isAtom() {
 		b.WriteString(s.A)
+		return
+	}
+	if s.str != "" {
+		b.WriteString(s.str)
 		return
 	}
 	b.WriteByte('(')
@@ -121,6 +134,8 @@ type instCtx struct {
 	hasQ    bool
 	budget  int // per-quantifier instance budget (0 = default)
 	aliases map[string][]string // merge constant -> printed branches of its defining ite (transitively)
+	canonCache map[string]string
+	rowAlias map[string]string  // named array stored as a row of a two-level heap -> root of that heap's rows
 }
 
 func binders(b *Sx) (names, sorts []string) {
@@ -304,7 +319,7 @@ func (ic *instCtx) ctxKeys(x *Sx, k int, bound map[string]bool) []ctxKey {
 		if k == 2 && !containsAny(x.L[1], bound) {
 			keys = append(keys, ctxKey("select|"+x.L[1].String()))
 			// arrays derived from each other by store share index candidates: use the root array name too
-			keys = append(keys, ctxKey("selroot|"+arrayRoot(x.L[1])))
+			keys = append(keys, ctxKey("selroot|"+ic.arrayRoot(x.L[1])))
 		} else if k == 2 {
 			keys = append(keys, ctxKey("selany"))
 		}
@@ -315,7 +330,7 @@ func (ic *instCtx) ctxKeys(x *Sx, k int, bound map[string]bool) []ctxKey {
 			if !containsAny(o, bound) {
 				keys = append(keys, ctxKey("+|"+o.String()))
 				// the same offset read from another heap version (map-of-slices headers) exchanges candidates
-				if ck := canonHeapNames(o.String()); ck != o.String() {
+				if ck := ic.canon(o.String()); ck != o.String() {
 					keys = append(keys, ctxKey("+~"+ck))
 				}
 			}
@@ -335,20 +350,35 @@ func (ic *instCtx) ctxKeys(x *Sx, k int, bound map[string]bool) []ctxKey {
 	return keys
 }
 
-func arrayRoot(a *Sx) string {
+func (ic *instCtx) canon(s string) string {
+	if c, ok := ic.canonCache[s]; ok {
+		return c
+	}
+	if ic.canonCache == nil {
+		ic.canonCache = map[string]string{}
+	}
+	c := canonHeapNames(s)
+	ic.canonCache[s] = c
+	return c
+}
+
+func (ic *instCtx) arrayRoot(a *Sx) string {
 	for a.head() == "store" && len(a.L) == 4 {
 		a = a.L[1]
 	}
 	if a.head() == "select" && len(a.L) == 3 {
 		// a row of a two-level heap (map contents, slice contents): all versions and rows share candidates
-		return "sel(" + arrayRoot(a.L[1]) + ")"
+		return "sel(" + ic.arrayRoot(a.L[1]) + ")"
 	}
 	if a.head() == "ite" && len(a.L) == 4 {
-		return arrayRoot(a.L[2])
+		return ic.arrayRoot(a.L[2])
 	}
 	s := a.String()
+	if r, ok := ic.rowAlias[s]; ok {
+		return r // a named row stored into a two-level heap
+	}
 	// named heap versions: Hm.key!n, Hh.key!n, H.key!n, H0.key -> key
-	for _, p := range []string{"Hm.", "Hh.", "Hc.", "H0.", "H."} {
+	for _, p := range []string{"Hm.", "Hh.", "Hc.", "Hx.", "Hl.", "Hv.", "H0.", "H."} {
 		if strings.HasPrefix(s, p) {
 			s = s[len(p):]
 			if i := strings.LastIndex(s, "!"); i >= 0 {
@@ -377,7 +407,11 @@ func (ic *instCtx) collectGround(x *Sx, into map[ctxKey]map[string]*Sx) {
 				into[key] = m
 			}
 			s := x.L[k].String()
-			if len(s) < 300 && strings.Count(s, "(sub.") <= 2 {
+			lim := 300
+			if strings.HasPrefix(s, "(str.of ") {
+				lim = 1200 // map keys built from byte strings are long but important candidates
+			}
+			if len(s) < lim && strings.Count(s, "(sub.") <= 2 {
 				m[s] = x.L[k]
 			}
 		}
@@ -475,6 +509,26 @@ func (ic *instCtx) instantiate(asserts []*Sx, rounds int) []*Sx {
 			}
 		}
 	}
+	ic.rowAlias = map[string]string{}
+	var scanRows func(x *Sx)
+	scanRows = func(x *Sx) {
+		if x.isAtom() {
+			return
+		}
+		if x.head() == "store" && len(x.L) == 4 && x.L[3].isAtom() && strings.Contains(x.L[3].A, "!") {
+			if _, dup := ic.rowAlias[x.L[3].A]; !dup {
+				if root := ic.arrayRoot(x.L[1]); !strings.Contains(root, "!") {
+					ic.rowAlias[x.L[3].A] = "sel(" + root + ")"
+				}
+			}
+		}
+		for _, c := range x.L {
+			scanRows(c)
+		}
+	}
+	for _, a := range asserts {
+		scanRows(a)
+	}
 	seen := map[string]bool{}
 	for _, a := range asserts {
 		seen[a.String()] = true
@@ -517,13 +571,14 @@ func (ic *instCtx) instantiate(asserts []*Sx, rounds int) []*Sx {
 				if ic.budget > 0 {
 					budget = ic.budget
 				}
+				dkPrefix := fmt.Sprintf("%p|%v|", q, p)
 				var rec func(b *Sx, rest []string, tuple string)
 				rec = func(b *Sx, rest []string, tuple string) {
 					if budget <= 0 {
 						return
 					}
 					if len(rest) == 0 {
-						dk := fmt.Sprintf("%p|%v|%s", q, p, tuple)
+						dk := dkPrefix + tuple
 						if done[dk] {
 							return
 						}
@@ -614,6 +669,9 @@ func (ic *instCtx) instantiate(asserts []*Sx, rounds int) []*Sx {
 						for ci, s := range keys {
 							if ci >= per || budget <= 0 {
 								break
+							}
+							if len(others) == 0 && done[dkPrefix+tuple+s+"|"] {
+								continue // instantiated in an earlier round
 							}
 							rec(subst(b, map[string]*Sx{n: set[s]}), others, tuple+s+"|")
 						}
@@ -732,7 +790,7 @@ func genericCtx(c ctxKey) bool {
 		strings.HasPrefix(s, "strlen|") || s == "selany" || strings.HasPrefix(s, "selroot|ghost_") || strings.HasPrefix(s, "select|H0.ghost_")
 }
 
-var heapVerRe = regexp.MustCompile(`\b(?:Hm|Hh|Hc|Hx|H0|H)\.([A-Za-z0-9_.#:$-]+?)(?:![0-9]+)?([ )])`)
+var heapVerRe = regexp.MustCompile(`\b(?:Hm|Hh|Hc|Hx|Hl|Hv|H0|H)\.([A-Za-z0-9_.#:$-]+?)(?:![0-9]+)?([ )])`)
 
 // canonHeapNames replaces versioned heap array names by their key (H.map_dom!70, H0.map_dom -> map_dom).
 func canonHeapNames(s string) string {
